@@ -92,7 +92,49 @@ def matrix():
     return 0
 
 
+def conformance():
+    """(c) Trace_CLHT must reject a recorded run with one synchronisation step removed and one with a corrupted result."""
+    import clhtconf, scen
+    sc = lib.Scratch()
+    d = lib.mktemp("verif-selfconf-")
+    fam = scen.map_families("Map", "", "", {"kind": "pct", "depth": 3, "runs": 5, "seed": 1})
+    scs = [dict(s, steplog=True) for s in fam if s["name"].startswith(("F4-grow", "F1-slot"))]
+    pin, out = os.path.join(d, "sc.json"), os.path.join(d, "h.ndjson")
+    json.dump(scs, open(pin, "w"))
+    sc.run("conc", inp=pin, out=out)
+    sitemap = json.load(open(os.path.join(sc.dir, "sitemap.json")))
+    byname = {s["name"]: s for s in scs}
+    bad = 0
+    for lines in lib.split_traces(out)[:2]:
+        name = json.loads(lines[0])["note"]
+        ok, _ = clhtconf.conform(lines, byname[name], "Map", sitemap)
+        if ok is not True:
+            print("selftest (c): unmodified run does not conform", name)
+            bad += 1
+            continue
+        stores = [i for i, l in enumerate(lines) if '"ev":"step"' in l and '"op":"Store"' in l]
+        mut = lines[:stores[len(stores) // 2]] + lines[stores[len(stores) // 2] + 1:]
+        ok, det = clhtconf.conform(mut, byname[name], "Map", sitemap)
+        if ok is not False:
+            print("selftest (c): run with a removed Store step still conforms", name)
+            bad += 1
+        rets = [i for i, l in enumerate(lines) if '"ev":"ret"' in l and '"op":"Load"' in l and '"t":0' not in l]
+        if rets:
+            e = json.loads(lines[rets[0]])
+            e["rv"], e["ok"] = "v999", True
+            mut = list(lines)
+            mut[rets[0]] = json.dumps(e) + "\n"
+            ok, det = clhtconf.conform(mut, byname[name], "Map", sitemap)
+            if ok is not False:
+                print("selftest (c): run with a corrupted Load result still conforms", name)
+                bad += 1
+    print("selftest (c): conformance mutations missed:", bad)
+    return 1 if bad else 0
+
+
 def main(argv):
+    if argv and argv[0] == "conf":
+        return conformance()
     if argv and argv[0] == "matrix":
         return matrix()
     return corrupt_traces()
